@@ -391,6 +391,7 @@ impl<'a> Tr<'a> {
         if f.fuel {
             a.push(self.fuel_var.clone());
         }
+        a.extend(self.mvar_args(&f.mvars, env, e)?);
         let mut writebacks: Vec<(String, Vec<Member>)> = vec![];
         let mut args = args;
         if f.self_kind != SelfKind::None {
